@@ -12,6 +12,7 @@ import (
 	"fmt"
 	"io"
 	"math/big"
+	"net"
 	"net/url"
 	"os"
 	"path/filepath"
@@ -59,6 +60,7 @@ func ca() {
 
 type response struct {
 	Fail      bool
+	Err       string        // which error VALUE a failing request returns (Fail, and the trust-anchor source for anchors-fail): see errKinds
 	Bad       string        // the issuer answers, but with something the client must refuse: empty | noid | badid | twoids | anchors-fail (the trust-anchor source fails for this fetch; only consulted with an identity directory)
 	NotBefore time.Duration // offset of NotBefore from the instant of the request (may be negative)
 	Validity  time.Duration
@@ -66,12 +68,111 @@ type response struct {
 
 func (r response) String() string {
 	if r.Fail {
-		return "fail"
+		return "fail(" + r.errKind() + ")"
+	}
+	if r.Bad == "anchors-fail" {
+		return "bad(anchors-fail:" + r.errKind() + ")"
 	}
 	if r.Bad != "" {
 		return "bad(" + r.Bad + ")"
 	}
 	return fmt.Sprintf("cert(nb%+v,valid=%v)", r.NotBefore, r.Validity)
+}
+
+func (r response) errKind() string {
+	if r.Err == "" {
+		return "new"
+	}
+	return r.Err
+}
+
+// errKinds is the menu of error VALUES a failing issuer request (or trust-anchor read) returns. A failed fetch is a
+// failed fetch whatever its error looks like: in particular one that "is" context.Canceled / context.DeadlineExceeded
+// (the requester's own per-request timeout, an HTTP client's *url.Error, a joined error, an error type with an Is
+// method) says nothing about the context that was given to Run.
+var errKinds = []string{"new", "ctx-deadline", "ctx-canceled", "wrapped-ctx-deadline", "wrapped-ctx-canceled", "request-timeout", "request-canceled",
+	"request-cause", "url-error-deadline", "url-error-canceled", "joined-canceled", "custom-is-ctx", "custom-unwrap-ctx", "custom-timeout", "eof", "unexpected-eof",
+	"os-deadline", "net-timeout", "net-closed"}
+
+// isCtxErr is an error of a caller's own type that claims to be both context errors and a timeout.
+type isCtxErr struct{}
+
+func (isCtxErr) Error() string { return "verif: issuer unavailable (own error type, Is(context.Canceled|DeadlineExceeded))" }
+func (isCtxErr) Is(t error) bool {
+	return t == context.Canceled || t == context.DeadlineExceeded
+}
+func (isCtxErr) Timeout() bool   { return true }
+func (isCtxErr) Temporary() bool { return true }
+
+// multiErr unwraps to several errors, a context error among them.
+type multiErr struct{ errs []error }
+
+func (m multiErr) Error() string   { return fmt.Sprintf("verif: issuer failed: %v", m.errs) }
+func (m multiErr) Unwrap() []error { return m.errs }
+
+// timeoutErr is a plain timeout of a caller's own type (net.Error) that is no context error.
+type timeoutErr struct{}
+
+func (timeoutErr) Error() string   { return "verif: i/o timeout talking to the issuer" }
+func (timeoutErr) Timeout() bool   { return true }
+func (timeoutErr) Temporary() bool { return true }
+
+// scriptedErr makes the error value of kind for a request that was made with ctx.
+func scriptedErr(ctx context.Context, kind string) error {
+	switch kind {
+	case "ctx-deadline":
+		return context.DeadlineExceeded
+	case "ctx-canceled":
+		return context.Canceled
+	case "wrapped-ctx-deadline":
+		return fmt.Errorf("verif: sign request to issuer failed: %w", context.DeadlineExceeded)
+	case "wrapped-ctx-canceled":
+		return fmt.Errorf("verif: sign request to issuer failed: %w", context.Canceled)
+	case "request-timeout": // the requester's own per-request deadline (already elapsed: no time passes)
+		rctx, cancel := context.WithDeadline(ctx, time.Unix(0, 0))
+		defer cancel()
+		<-rctx.Done()
+		return fmt.Errorf("verif: sign request to issuer failed: %w", rctx.Err())
+	case "request-canceled": // the requester gave up on its own request
+		rctx, cancel := context.WithCancel(ctx)
+		cancel()
+		<-rctx.Done()
+		return fmt.Errorf("verif: sign request to issuer abandoned: %w", rctx.Err())
+	case "request-cause":
+		rctx, cancel := context.WithCancelCause(ctx)
+		cancel(errors.New("verif: issuer connection reset"))
+		<-rctx.Done()
+		return fmt.Errorf("verif: %w (%w)", context.Cause(rctx), rctx.Err())
+	case "url-error-deadline": // what net/http's client returns for its own Timeout
+		return &url.Error{Op: "Post", URL: "https://issuer.example.org/sign", Err: context.DeadlineExceeded}
+	case "url-error-canceled":
+		return &url.Error{Op: "Post", URL: "https://issuer.example.org/sign", Err: context.Canceled}
+	case "joined-canceled":
+		return errors.Join(errors.New("verif: issuer a refused"), context.Canceled, io.EOF)
+	case "custom-is-ctx":
+		return isCtxErr{}
+	case "custom-unwrap-ctx":
+		return multiErr{[]error{io.ErrUnexpectedEOF, context.DeadlineExceeded}}
+	case "custom-timeout":
+		return timeoutErr{}
+	case "eof":
+		return io.EOF
+	case "unexpected-eof":
+		return io.ErrUnexpectedEOF
+	case "os-deadline":
+		return os.ErrDeadlineExceeded
+	case "net-timeout":
+		return &net.OpError{Op: "read", Net: "tcp", Err: os.ErrDeadlineExceeded}
+	case "net-closed":
+		return &net.OpError{Op: "write", Net: "tcp", Err: net.ErrClosed}
+	}
+	return errors.New("verif: scripted issuer failure")
+}
+
+// ctxFlavoured tells whether an error of that kind satisfies errors.Is(err, context.Canceled|DeadlineExceeded).
+func ctxFlavoured(kind string) bool {
+	e := scriptedErr(context.Background(), kind)
+	return errors.Is(e, context.Canceled) || errors.Is(e, context.DeadlineExceeded)
 }
 
 type request struct {
@@ -93,6 +194,7 @@ type issuer struct {
 	serial  int64
 	dirMode bool // an identity directory is configured (so the trust anchors are fetched with every certificate)
 	hammer  int  // consumers started from inside each renewal request
+	honours bool // the issuer honours the context of the request: it stops waiting when that context ends and a request made with a context that is done fails with that context's error
 	hwg     sync.WaitGroup
 }
 
@@ -108,7 +210,17 @@ func (is *issuer) fn(ctx context.Context, csrDER []byte) ([]*x509.Certificate, e
 	gate := is.gate
 	is.mu.Unlock()
 	if idx == 0 && gate != nil {
-		<-gate
+		if is.honours {
+			select {
+			case <-gate:
+			case <-ctx.Done():
+			}
+		} else {
+			<-gate
+		}
+	}
+	if is.honours && ctx.Err() != nil {
+		return nil, fmt.Errorf("verif: sign request to issuer failed: %w", ctx.Err())
 	}
 	if idx > 0 && is.src != nil && is.hammer > 0 {
 		for r := 0; r < is.hammer; r++ {
@@ -140,7 +252,7 @@ func (is *issuer) fn(ctx context.Context, csrDER []byte) ([]*x509.Certificate, e
 		resp = is.script[idx]
 	}
 	if resp.Fail {
-		return nil, errors.New("verif: scripted issuer failure")
+		return nil, scriptedErr(ctx, resp.Err)
 	}
 	if resp.Bad == "empty" {
 		return []*x509.Certificate{}, nil
@@ -194,11 +306,14 @@ type anchors struct{ is *issuer }
 func (a anchors) GetX509BundleForTrustDomain(spiffeid.TrustDomain) (*x509bundle.Bundle, error) {
 	return nil, errors.New("not used")
 }
-func (a anchors) CurrentTrustAnchors(context.Context) ([]byte, error) {
+func (a anchors) CurrentTrustAnchors(ctx context.Context) ([]byte, error) {
 	a.is.mu.Lock()
 	defer a.is.mu.Unlock()
 	if i := len(a.is.reqs) - 1; i < len(a.is.script) && a.is.script[i].Bad == "anchors-fail" {
-		return nil, errors.New("verif: scripted trust-anchor failure")
+		if a.is.script[i].Err == "" {
+			return nil, errors.New("verif: scripted trust-anchor failure")
+		}
+		return nil, scriptedErr(ctx, a.is.script[i].Err)
 	}
 	v := fmt.Sprintf("trust-anchors-for-request-%d\n", len(a.is.reqs)-1)
 	a.is.reqs[len(a.is.reqs)-1].anchors = v
@@ -213,10 +328,25 @@ type readyCase struct {
 	Order     []string // permutation of run, ready, get, get2
 	InitialOK bool
 	Gate      bool // the initial fetch blocks until every call has been issued
+	// RunCtx: the state of the context Run is called with. "" = live until the end of the case; "cancelled" = cancelled
+	// before Run is called; "expired" = its deadline has passed before Run is called; "relay-cancelled" = a context of
+	// the caller's own type whose parent was cancelled before Run is called; "cancelled-in-fetch" = cancelled while the
+	// initial fetch is held at the gate (Gate only).
+	RunCtx  string
+	Honours bool   // the issuer honours the request's context (see issuer.honours)
+	ErrKind string // error value of the failing initial fetch (errKinds)
 }
 
 func (c readyCase) String() string {
-	return fmt.Sprintf("spiffe.ready{order=%v initialOK=%v gateInitialFetch=%v}", c.Order, c.InitialOK, c.Gate)
+	rc := c.RunCtx
+	if rc == "" {
+		rc = "live"
+	}
+	ek := ""
+	if !c.InitialOK {
+		ek = " initialError=" + response{Err: c.ErrKind}.errKind()
+	}
+	return fmt.Sprintf("spiffe.ready{order=%v initialOK=%v%s gateInitialFetch=%v runContext=%s issuerHonoursContext=%v}", c.Order, c.InitialOK, ek, c.Gate, rc, c.Honours)
 }
 
 func runReady(t *testing.T, c readyCase) (parkedBeforeRun bool, err error) {
@@ -224,22 +354,15 @@ func runReady(t *testing.T, c readyCase) (parkedBeforeRun bool, err error) {
 	vk.KeepDumps = true
 	var errs vk.Errs
 	berr := vk.Bubble(t, c.String(), func() {
-		is := &issuer{}
+		is := &issuer{honours: c.Honours}
 		if !c.InitialOK {
-			is.script = []response{{Fail: true}}
+			is.script = []response{{Fail: true, Err: c.ErrKind}}
 		}
 		if c.Gate {
 			is.gate = make(chan struct{})
 		}
 		s := spiffe.New(spiffe.Options{Log: qlog, RequestSVIDFn: is.fn})
 		src := s.SVIDSource()
-		ctx, cancel := context.WithCancel(context.Background())
-		defer cancel()
-		var mu sync.Mutex
-		done := map[string]bool{}
-		results := map[string]error{}
-		var wg sync.WaitGroup
-		runIssued := false
 		settle := func() bool {
 			p, e := vk.SettleStacks()
 			if e != nil {
@@ -248,6 +371,36 @@ func runReady(t *testing.T, c readyCase) (parkedBeforeRun bool, err error) {
 			}
 			return true
 		}
+		base, cancel := context.WithCancel(context.Background())
+		defer cancel()
+		var ctx context.Context = base
+		switch c.RunCtx {
+		case "cancelled":
+			cancel()
+		case "expired":
+			var stop context.CancelFunc
+			ctx, stop = context.WithTimeout(base, time.Second)
+			defer stop()
+			time.Sleep(2 * time.Second)
+		case "relay-cancelled":
+			cancel()
+			ctx = vk.NewRelayCtx(base, 3)
+			if !settle() {
+				return
+			}
+		}
+		if c.RunCtx == "cancelled" || c.RunCtx == "expired" || c.RunCtx == "relay-cancelled" {
+			if ctx.Err() == nil {
+				errs.Failf("harness: the context for Run is not done")
+				return
+			}
+		}
+		ctxEnds := c.RunCtx != "" // Run's context is done by the time the case looks at the outcome
+		var mu sync.Mutex
+		done := map[string]bool{}
+		results := map[string]error{}
+		var wg sync.WaitGroup
+		runIssued := false
 		for _, call := range c.Order {
 			if (call == "get" || call == "get2" || call == "ready") && !runIssued {
 				parkedBeforeRun = true
@@ -279,31 +432,44 @@ func runReady(t *testing.T, c readyCase) (parkedBeforeRun bool, err error) {
 				return
 			}
 		}
+		if c.RunCtx == "cancelled-in-fetch" {
+			cancel()
+			if !settle() {
+				return
+			}
+		}
 		if c.Gate {
 			close(is.gate)
 		}
 		if !settle() {
 			return
 		}
-		// once the initial fetch has finished, Ready and GetX509SVID return
+		// Once the initial fetch has finished - and all the more once Run has returned, whatever it returned - Ready and
+		// GetX509SVID return. (Run itself is expected back only when its context is done.)
 		mu.Lock()
 		var stuck []string
 		for _, call := range c.Order {
-			if call != "run" && !done[call] {
+			if !done[call] && (call != "run" || ctxEnds) {
 				stuck = append(stuck, call)
 			}
 		}
-		fetched := len(is.snapshot()) > 0
+		runReturned, runResult := done["run"], results["run"]
 		mu.Unlock()
+		reqs := is.snapshot()
+		served := len(reqs) > 0 && reqs[0].ok // the issuer was asked and answered with a certificate
 		if len(stuck) > 0 {
 			p, _ := vk.SettleStacks()
-			if true {
+			msg := fmt.Sprintf("calls %v have not returned at a settled point after the initial fetch was let through (Run returned=%v result=%v; issuer requests=%d; goroutines parked on the SPIFFE lock: %d): they wait for a readiness signal / a lock that nothing is left to give", stuck, runReturned, runResult, len(reqs), p.OnMutex)
+			if p.OnMutex > 0 {
+				// goroutines parked on a mutex cannot be abandoned (the bubble would never end)
 				for i, d := range vk.LastDumps {
 					fmt.Println("=== accepted snapshot", i)
 					fmt.Println(d)
 				}
+				vk.Wedged(fmt.Sprintf("C19 SPIFFE violated: %s\ncase: %s", msg, c))
 			}
-			vk.Wedged(fmt.Sprintf("C19 SPIFFE violated: calls %v have not returned (initial fetch requested=%v; goroutines parked on the SPIFFE lock: %d): Run cannot take the lock that a consumer holds while it waits for readiness\ncase: %s", stuck, fetched, p.OnMutex, c))
+			errs.Failf("%s", msg)
+			return // the stuck calls are abandoned; the bubble reports them once more
 		}
 		mu.Lock()
 		for _, call := range c.Order {
@@ -313,13 +479,16 @@ func runReady(t *testing.T, c readyCase) (parkedBeforeRun bool, err error) {
 					errs.Failf("Ready returned %v", results[call])
 				}
 			case "get", "get2":
-				if c.InitialOK && results[call] != nil {
+				if served && results[call] != nil {
 					errs.Failf("GetX509SVID returned %v although the initial fetch succeeded", results[call])
 				}
-				if !c.InitialOK && results[call] == nil {
-					errs.Failf("GetX509SVID returned an SVID although the initial fetch failed")
+				if !served && results[call] == nil {
+					errs.Failf("GetX509SVID returned an SVID although the initial fetch failed (issuer requests=%d)", len(reqs))
 				}
 			case "run":
+				if ctxEnds {
+					break // Run has returned (checked above); what it returns at shutdown is not part of the property
+				}
 				if !c.InitialOK && (!done[call] || results[call] == nil) {
 					errs.Failf("Run did not report the failed initial fetch (returned=%v err=%v)", done[call], results[call])
 				}
@@ -329,6 +498,9 @@ func runReady(t *testing.T, c readyCase) (parkedBeforeRun bool, err error) {
 			}
 		}
 		mu.Unlock()
+		if !ctxEnds && served != c.InitialOK {
+			errs.Failf("harness: the initial fetch was scripted initialOK=%v but the issuer recorded %v", c.InitialOK, reqs)
+		}
 		if e := s.Run(ctx); e == nil {
 			errs.Failf("a second Run did not fail")
 		}
@@ -337,7 +509,7 @@ func runReady(t *testing.T, c readyCase) (parkedBeforeRun bool, err error) {
 			return
 		}
 		wg.Wait()
-		if c.InitialOK && results["run"] != nil {
+		if served && results["run"] != nil {
 			errs.Failf("Run returned %v after its context was cancelled", results["run"])
 		}
 	})
@@ -345,6 +517,32 @@ func runReady(t *testing.T, c readyCase) (parkedBeforeRun bool, err error) {
 		return parkedBeforeRun, e
 	}
 	return parkedBeforeRun, berr
+}
+
+func (c readyCase) classes() []string {
+	cls := []string{"readiness"}
+	if c.RunCtx != "" {
+		cls = append(cls, "run-context."+c.RunCtx)
+		if c.Honours {
+			cls = append(cls, "run-context-done.issuer-honours-it")
+		} else {
+			cls = append(cls, "run-context-done.issuer-ignores-it")
+		}
+	}
+	if !c.InitialOK {
+		cls = append(cls, "initial-failure."+response{Err: c.ErrKind}.errKind())
+	}
+	return cls
+}
+
+// runCtxVariants lists (state of Run's context, issuer honours it) for a case with / without the gate. With a live
+// context an issuer that honours it and one that does not behave alike.
+func runCtxVariants(gate bool) [][2]any {
+	v := [][2]any{{"", false}, {"cancelled", false}, {"cancelled", true}, {"expired", false}, {"expired", true}}
+	if gate {
+		v = append(v, [2]any{"cancelled-in-fetch", false}, [2]any{"cancelled-in-fetch", true})
+	}
+	return v
 }
 
 func permutations(xs []string) [][]string {
@@ -362,7 +560,8 @@ func permutations(xs []string) [][]string {
 }
 
 // TestReadinessOrders enumerates every order of the first calls to Run, Ready and GetX509SVID (twice), with the
-// initial fetch succeeding or failing, returning at once or only after all calls were issued.
+// initial fetch succeeding or failing, returning at once or only after all calls were issued, and with Run's context
+// live / already cancelled / already expired at the call / cancelled during the fetch, the issuer honouring it or not.
 func TestReadinessOrders(t *testing.T) {
 	sec := vk.Sec("ReadinessOrders")
 	idx := 0
@@ -370,22 +569,50 @@ func TestReadinessOrders(t *testing.T) {
 		for _, order := range permutations(set) {
 			for _, ok := range []bool{true, false} {
 				for _, gate := range []bool{false, true} {
-					idx++
-					if !vk.Mine(idx) {
-						continue
+					for _, rc := range runCtxVariants(gate) {
+						idx++
+						if !vk.Mine(idx) {
+							continue
+						}
+						c := readyCase{Order: order, InitialOK: ok, Gate: gate, RunCtx: rc[0].(string), Honours: rc[1].(bool)}
+						parked, err := runReady(t, c)
+						if err != nil {
+							t.Fatalf("C19 SPIFFE violated: %v\ncase: %s", err, c)
+						}
+						sec.Case(parked, vk.FP(c.String()), c.classes()...)
+						sec.Sample(func() any { return c.String() })
 					}
-					c := readyCase{Order: order, InitialOK: ok, Gate: gate}
-					parked, err := runReady(t, c)
-					if err != nil {
-						t.Fatalf("C19 SPIFFE violated: %v\ncase: %s", err, c)
-					}
-					sec.Case(parked, vk.FP(c.String()), "readiness")
-					sec.Sample(func() any { return c.String() })
 				}
 			}
 		}
 	}
 	sec.SetExhaustive()
+}
+
+// TestReadinessContexts draws from the wider space: the same orders, with the error VALUE of a failing initial fetch
+// from the menu (errKinds) and Run's context also of a caller's own type.
+func TestReadinessContexts(t *testing.T) {
+	sec := vk.Sec("ReadinessContexts")
+	sets := [][]string{{"run", "ready", "get"}, {"run", "ready", "get", "get2"}, {"run", "get"}, {"run", "ready"}}
+	vk.Check(t, 300, 20000, func(rt *rapid.T) {
+		set := sets[rapid.IntRange(0, len(sets)-1).Draw(rt, "set")]
+		c := readyCase{Order: rapid.Permutation(set).Draw(rt, "order"), InitialOK: rapid.Bool().Draw(rt, "initialOK"), Gate: rapid.Bool().Draw(rt, "gate")}
+		kinds := []string{"", "", "cancelled", "expired", "relay-cancelled"}
+		if c.Gate {
+			kinds = append(kinds, "cancelled-in-fetch")
+		}
+		c.RunCtx = rapid.SampledFrom(kinds).Draw(rt, "runContext")
+		c.Honours = rapid.Bool().Draw(rt, "issuerHonoursContext")
+		if !c.InitialOK {
+			c.ErrKind = rapid.SampledFrom(errKinds).Draw(rt, "initialError")
+		}
+		parked, err := runReady(t, c)
+		if err != nil {
+			rt.Fatalf("C19 SPIFFE violated: %v\ncase: %s", err, c)
+		}
+		sec.Case(parked, vk.FP(c.String()), c.classes()...)
+		sec.Sample(func() any { return c.String() })
+	})
 }
 
 // ---------------------------------------------------------------- (B) renewal
@@ -405,7 +632,7 @@ func (c renewCase) String() string {
 	return fmt.Sprintf("spiffe.renew{script=[%s] steps=%v dir=%v hammer=%d}", strings.Join(s, " "), c.Steps, c.Dir, c.Hammer)
 }
 
-type renewOutcome struct{ failures, successes int }
+type renewOutcome struct{ failures, successes, requests int }
 
 func runRenew(t *testing.T, c renewCase) (out renewOutcome, err error) {
 	ca()
@@ -479,6 +706,13 @@ func runRenew(t *testing.T, c renewCase) (out renewOutcome, err error) {
 					return false
 				}
 				return true
+			}
+			// the initial fetch succeeded and Run's context is live: the renewal loop is at work, Run has not returned
+			select {
+			case <-runDone:
+				errs.Failf("after %s: Run returned (%v) although the initial fetch succeeded and its context is live (issuer requests so far: %d): nothing renews the SVID any more", step, runErr, len(reqs))
+				return false
+			default:
 			}
 			// fresh key per fetch
 			for i := range reqs {
@@ -600,6 +834,7 @@ func runRenew(t *testing.T, c renewCase) (out renewOutcome, err error) {
 			}
 		}
 		reqs := is.snapshot()
+		out.requests = len(reqs)
 		for _, r := range reqs[1:] {
 			if r.ok {
 				out.successes++
@@ -633,9 +868,13 @@ func TestRenewal(t *testing.T) {
 		for i := 0; i < n; i++ {
 			if rapid.IntRange(0, 2).Draw(rt, "fail") == 0 {
 				if rapid.Bool().Draw(rt, "refusedAnswer") {
-					c.Script = append(c.Script, response{Bad: rapid.SampledFrom([]string{"empty", "noid", "badid", "twoids", "anchors-fail"}).Draw(rt, "bad"), Validity: rapid.SampledFrom(valid).Draw(rt, "badValidity")})
+					r := response{Bad: rapid.SampledFrom([]string{"empty", "noid", "badid", "twoids", "anchors-fail"}).Draw(rt, "bad"), Validity: rapid.SampledFrom(valid).Draw(rt, "badValidity")}
+					if r.Bad == "anchors-fail" {
+						r.Err = rapid.SampledFrom(errKinds).Draw(rt, "anchorsError")
+					}
+					c.Script = append(c.Script, r)
 				} else {
-					c.Script = append(c.Script, response{Fail: true})
+					c.Script = append(c.Script, response{Fail: true, Err: rapid.SampledFrom(errKinds).Draw(rt, "error")})
 				}
 				continue
 			}
@@ -665,9 +904,20 @@ func TestRenewal(t *testing.T) {
 		if out.failures > 0 {
 			cls = append(cls, "renewal-failure")
 		}
-		for _, r := range c.Script {
+		for i, r := range c.Script {
 			if r.Bad != "" {
 				cls = append(cls, "issuer-answer-refused."+r.Bad)
+			}
+			// error values of the failures that were actually returned to a renewal (request 0 is the initial fetch)
+			if i < out.requests && (r.Fail || (r.Bad == "anchors-fail" && c.Dir)) {
+				where := "renewal"
+				if i == 0 {
+					where = "initial"
+				}
+				cls = append(cls, where+"-failure-error."+r.errKind())
+				if ctxFlavoured(r.errKind()) {
+					cls = append(cls, where+"-failure-error-is-a-context-error")
+				}
 			}
 		}
 		if out.successes >= 2 {
